@@ -1,6 +1,7 @@
 import Dashu.Gen.BitScans
 import Dashu.Proofs.Int.Bits
 import Dashu.Props.GenMath
+import Dashu.Props.GenBitsSmall
 /-
   C09, Tie A: the word scans of `integer/src/bits.rs` as REGENERATED text (`Dashu/Gen/BitScans.lean`: the scan loops,
   CHECKED slice accesses, the all-ones early exit, the index arithmetic and `as usize` casts over checked machine
@@ -230,5 +231,167 @@ example : trailing_zeros_large 64 64 [0, 0, 2 ^ 63, 5] = some 191 ∧ tzLarge 64
 example : are_slice_low_bits_nonzero 64 64 [1, 0, 0, 8] 130 = some true ∧ are_slice_low_bits_nonzero 64 64 [0, 0, 2, 8] 130 = some true ∧
     are_slice_low_bits_nonzero 64 64 [0, 0, 4, 8] 130 = some false ∧ are_slice_low_bits_nonzero 64 64 [0, 0, 0] (2 ^ 64 - 1) = some true := by
   refine ⟨by decide, by decide, by decide, by decide⟩
+
+/-- **`TypedReprRef::bit`, arm `RefLarge`** (`idx < len && words[idx] & 1 << (n % W) != 0`: the slice access only under its
+    guard, checked) = the heap arm of the hand model's `TRepr.bit`; every slice, every `n` -/
+theorem gen_bit_large (W U n : Nat) (ws : List Nat) (hW : 1 ≤ W) :
+    bit_large W U ws n = some ((TRepr.large ws).bit W n) := by
+  have hW0 : W ≠ 0 := by omega
+  have hm : n % W < W := Nat.mod_lt n (by omega)
+  have hp : 1 * 2 ^ (n % W) % 2 ^ W = 2 ^ (n % W) := by
+    rw [Nat.one_mul]; exact Nat.mod_eq_of_lt (Nat.pow_lt_pow_right (by decide) hm)
+  unfold bit_large TRepr.bit
+  simp only [MachInt.div, hW0, if_false, bind, Option.bind, pure]
+  by_cases hc : n / W < ws.length
+  · have hidx : ws[n / W]? = some (ws.getD (n / W) 0) := by
+      rw [List.getD_eq_getElem?_getD, List.getElem?_eq_getElem hc]; rfl
+    simp only [hc, decide_true, if_true, index, hidx, MachInt.rem, hW0, if_false, MachInt.shl, hm, hp,
+      Props.GenBitsSmall.and_two_pow_ne_zero, Bool.true_and]
+  · simp [hc]
+
+/-- **`TypedReprRef::bit_len`, arm `RefLarge`** (`len * WORD_BITS - last.leading_zeros()`) = the heap arm of `TRepr.bitLen`,
+    on a non-empty slice whose bit count fits `usize` -/
+theorem gen_bit_len_large (W U : Nat) (ws : List Nat) (hne : ws ≠ []) (hU : ws.length * W < 2 ^ U) :
+    bit_len_large W U ws = some ((TRepr.large ws).bitLen W) := by
+  have hlen : 1 ≤ ws.length := by
+    cases ws with
+    | nil => exact absurd rfl hne
+    | cons a as => simp
+  have hWle : W ≤ ws.length * W := Nat.le_mul_of_pos_left W hlen
+  have hlast : ws.getLast? = some (ws.getLastD 0) := by
+    rw [List.getLastD_eq_getLast?]
+    cases h : ws.getLast? with
+    | none => exact absurd (List.getLast?_eq_none_iff.1 h) hne
+    | some a => rfl
+  have hlz : W - bitLenNat (ws.getLastD 0) < 2 ^ U := by omega
+  have hsub : W - bitLenNat (ws.getLastD 0) ≤ ws.length * W := by omega
+  unfold bit_len_large TRepr.bitLen
+  simp only [MachInt.mul, hU, if_true, hlast, bind, Option.bind, pure, MachInt.sub, MachInt.cast, MachInt.leading_zeros,
+    Props.GenMath.bitLength_eq, Nat.mod_eq_of_lt hlz, hsub]
+
+example : bit_large 64 64 [1, 2, 3] 65 = some true ∧ bit_large 64 64 [1, 2, 3] 64 = some false ∧
+    bit_large 64 64 [1, 2, 3] (2 ^ 64 - 1) = some false ∧ bit_len_large 64 64 [1, 2, 3] = some 130 ∧ bit_len_large 64 64 [] = none := by
+  refine ⟨by decide, by decide, by decide, by decide, by decide⟩
+
+theorem count_ones_eq (bits x : Nat) : count_ones bits x = popWord bits x := by
+  induction bits generalizing x with
+  | zero => rfl
+  | succ b ih => simp [count_ones, popWord, ih]
+
+theorem popWord_le (bits x : Nat) : popWord bits x ≤ bits := by
+  induction bits generalizing x with
+  | zero => simp [popWord]
+  | succ b ih =>
+    have := ih (x / 2)
+    have h2 : x % 2 < 2 := Nat.mod_lt _ (by decide)
+    simp only [popWord]; omega
+
+/-- a sum of per-word counts bounded by `W` each does not overflow when `len * W` fits -/
+theorem sum_checked_eq (U W : Nat) (f : Nat → Nat) (hf : ∀ w, f w ≤ W) (ws : List Nat) (hU : ws.length * W < 2 ^ U) :
+    sum_checked U f ws = some ((ws.map f).sum) ∧ (ws.map f).sum ≤ ws.length * W := by
+  induction ws with
+  | nil => exact ⟨rfl, by simp⟩
+  | cons a as ih =>
+    have hlen : (a :: as).length * W = as.length * W + W := by simp [Nat.add_mul]
+    have ⟨e, hb⟩ := ih (by omega)
+    have hfa := hf a
+    have hlt : f a + (as.map f).sum < 2 ^ U := by omega
+    refine ⟨?_, ?_⟩
+    · simp [sum_checked, e, MachInt.add, hlt]
+    · simp only [List.map_cons, List.sum_cons]; omega
+
+/-- **`TypedReprRef::count_ones`, arm `RefLarge`** (checked `usize` sum of the per-word counts) = the heap arm of `TRepr.countOnes` -/
+theorem gen_count_ones_large (W U : Nat) (ws : List Nat) (hU : ws.length * W < 2 ^ U) :
+    count_ones_large W U ws = some ((TRepr.large ws).countOnes W) := by
+  have h := (sum_checked_eq U W (count_ones W) (fun w => by rw [count_ones_eq]; exact popWord_le W w) ws hU).1
+  have e : count_ones W = popWord W := funext (count_ones_eq W)
+  rw [e] at h
+  simp [count_ones_large, TRepr.countOnes, h, e]
+
+/-- **`TypedReprRef::count_zeros`, arm `RefLarge`** (always `Some`: zero bits of all words minus the leading zeros of the top
+    word) = the heap arm of `TRepr.countZeros`, on a non-empty slice — PARTIAL: unless the checked subtraction underflows.
+    The FULL statement (the left disjunct alone, for a slice of words) is `gen_count_zeros_large` below: popcount(top) ≤ bit_len(top),
+    hence the zero bits of all words ≥ the leading zeros of the top word and the subtraction never underflows. -/
+theorem gen_count_zeros_large_partial (W U : Nat) (ws : List Nat) (hne : ws ≠ []) (hU : ws.length * W < 2 ^ U) :
+    (count_zeros_large W U ws).map some = some ((TRepr.large ws).countZeros W) ∨
+    -- the subtraction of the leading zeros would underflow only if the top word had more zero bits than all words together
+    (ws.map (fun w => W - popWord W w)).sum < W - bitLenNat (ws.getLastD 0) := by
+  have hlen : 1 ≤ ws.length := by
+    cases ws with
+    | nil => exact absurd rfl hne
+    | cons a as => simp
+  have hWle : W ≤ ws.length * W := Nat.le_mul_of_pos_left W hlen
+  have hlast : ws.getLast? = some (ws.getLastD 0) := by
+    rw [List.getLastD_eq_getLast?]
+    cases h : ws.getLast? with
+    | none => exact absurd (List.getLast?_eq_none_iff.1 h) hne
+    | some a => rfl
+  have hs := (sum_checked_eq U W (count_zeros W) (fun w => by unfold count_zeros; omega) ws hU).1
+  have e : count_zeros W = fun w => W - popWord W w := funext (fun w => by unfold count_zeros; rw [count_ones_eq])
+  have hlz : W - bitLenNat (ws.getLastD 0) < 2 ^ U := by omega
+  by_cases hsub : W - bitLenNat (ws.getLastD 0) ≤ (ws.map (fun w => W - popWord W w)).sum
+  · left
+    unfold count_zeros_large TRepr.countZeros
+    rw [e] at hs
+    simp only [e, hs, hlast, bind, Option.bind, pure, MachInt.sub, MachInt.cast, MachInt.leading_zeros,
+      Props.GenMath.bitLength_eq, Nat.mod_eq_of_lt hlz, hsub, if_true, Option.map]
+  · right; omega
+
+theorem is_power_of_two_eq (x : Nat) : is_power_of_two x = isPow2Nat x := rfl
+
+/-- **`TypedReprRef::is_power_of_two`, arm `RefLarge`** (`words[..len-1]` all zero `&&` the top word a power of two; `len - 1`
+    checked) = the heap arm of `TRepr.isPow2`, on a non-empty slice -/
+theorem gen_is_power_of_two_large (W U : Nat) (ws : List Nat) (hne : ws ≠ []) :
+    is_power_of_two_large W U ws = some ((TRepr.large ws).isPow2 W) := by
+  have hlen : 1 ≤ ws.length := by
+    cases ws with
+    | nil => exact absurd rfl hne
+    | cons a as => simp
+  have hlast : ws.getLast? = some (ws.getLastD 0) := by
+    rw [List.getLastD_eq_getLast?]
+    cases h : ws.getLast? with
+    | none => exact absurd (List.getLast?_eq_none_iff.1 h) hne
+    | some a => rfl
+  have hle : ws.length - 1 ≤ ws.length := by omega
+  have hd : ws.take (ws.length - 1) = ws.dropLast := by rw [List.dropLast_eq_take]
+  unfold is_power_of_two_large TRepr.isPow2
+  simp only [MachInt.sub, hlen, if_true, hle, hd, hlast, bind, Option.bind, pure, is_power_of_two_eq]
+  cases ws.dropLast.all (· == 0) <;> simp
+
+example : count_ones_large 64 64 [3, 0, 2 ^ 64 - 1] = some 66 ∧ count_zeros_large 64 64 [3, 0, 5] = some (62 + 64 + 1) ∧
+    is_power_of_two_large 64 64 [0, 0, 4] = some true ∧ is_power_of_two_large 64 64 [0, 0, 6] = some false ∧
+    is_power_of_two_large 64 64 [1, 0, 4] = some false ∧ is_power_of_two_large 64 64 [] = none := by
+  refine ⟨by decide, by decide, by decide, by decide, by decide, by decide⟩
+
+theorem last_le_sum (f : Nat → Nat) (ws : List Nat) (hne : ws ≠ []) : f (ws.getLastD 0) ≤ (ws.map f).sum := by
+  induction ws with
+  | nil => exact absurd rfl hne
+  | cons a as ih =>
+    cases as with
+    | nil => simp [List.getLastD]
+    | cons b t =>
+      have h := ih (by simp)
+      have e : (a :: b :: t).getLastD 0 = (b :: t).getLastD 0 := by simp [List.getLastD]
+      rw [e]
+      simp only [List.map_cons, List.sum_cons] at h ⊢
+      omega
+
+/-- **`TypedReprRef::count_zeros`, arm `RefLarge`, FULL**: on a non-empty slice of words the checked subtraction never underflows
+    (popcount of the top word ≤ its bit length) and the regenerated arm = the heap arm of `TRepr.countZeros` -/
+theorem gen_count_zeros_large (W U : Nat) (ws : List Nat) (hne : ws ≠ []) (hw : IsWords W ws) (hU : ws.length * W < 2 ^ U) :
+    (count_zeros_large W U ws).map some = some ((TRepr.large ws).countZeros W) := by
+  rcases gen_count_zeros_large_partial W U ws hne hU with h | h
+  · exact h
+  · exfalso
+    have hmem : ws.getLastD 0 ∈ ws := by
+      rw [List.getLastD_eq_getLast?]
+      cases hl : ws.getLast? with
+      | none => exact absurd (List.getLast?_eq_none_iff.1 hl) hne
+      | some a => exact List.mem_of_getLast? hl
+    have hlt : ws.getLastD 0 < 2 ^ W := hw _ hmem
+    have h1 := last_le_sum (fun w => W - popWord W w) ws hne
+    have h2 : popWord W (ws.getLastD 0) ≤ bitLenNat (ws.getLastD 0) := by
+      rw [popWord_eq_popNat W _ hlt]; exact popNat_le_bitLen _
+    omega
 
 end Dashu.Props.GenScans
